@@ -17,6 +17,7 @@ import (
 
 	"gitlab.com/gomidi/midi/v2"
 	"gitlab.com/gomidi/midi/v2/drivers"
+	"gitlab.com/gomidi/midi/v2/internal/verifh/disturb"
 	"gitlab.com/gomidi/midi/v2/internal/verifh/engine"
 	"gitlab.com/gomidi/midi/v2/internal/verifh/refsmf"
 	"gitlab.com/gomidi/midi/v2/internal/verifh/vtime"
@@ -725,6 +726,7 @@ func manyTracks() {
 
 func main() {
 	ctx = engine.Start("C12", "exploration")
+	disturb.Install(ctx)
 	if ctx.ReplayPath != "" {
 		m := ctx.LoadReplay()
 		var ns, sel []int
